@@ -66,6 +66,7 @@ func runC18(c *Ctx) {
 	ruleFilledByIndex(c, "C18.8", "storage.ShowDB")
 	ruleNoArithmeticOnStatementInts(c, "C18.9")
 	ruleReflectNil(c, "C18.10", "engine", "storage")
+	ruleSessionStateMovesTogether(c, "C18.11")
 }
 
 func c18PanicSources(c *Ctx, rule string) {
